@@ -134,7 +134,25 @@ func TestC14_Planted(t *testing.T) {
 		all := rapid.Bool().Draw(t, "all")
 		var e bx.Expr
 		filter := false
-		switch rapid.IntRange(0, 4).Draw(t, "shape") {
+		shape := rapid.IntRange(0, 6).Draw(t, "shape")
+		if shape >= 5 {
+			// key-only bindings: a comparison on the key decides, for some keys only, whether a failing
+			// sub-expression that does not depend on the element is reached
+			key := "k" + strconv.Itoa(rapid.IntRange(0, n-1).Draw(t, "decisiveKey"))
+			failing := &bx.Match{Sel: bx.Sel{Parts: []string{"m", "k0", "x", "deeper"}}, Op: bx.OpEq, Lit: "1"}
+			q := &bx.Quant{All: all, Sel: bx.Sel{Parts: []string{"m"}}, Mode: bx.BindDefault, Value: "k"}
+			if shape == 6 {
+				q.Mode, q.Index, q.Value = bx.BindIndex, "k", ""
+			}
+			if all {
+				q.Body = &bx.And{L: &bx.Match{Sel: bx.Sel{Parts: []string{"k"}}, Op: bx.OpNe, Lit: key}, R: failing}
+			} else {
+				q.Body = &bx.Or{L: &bx.Match{Sel: bx.Sel{Parts: []string{"k"}}, Op: bx.OpEq, Lit: key}, R: failing}
+			}
+			e = q
+		}
+		switch shape {
+		case 5, 6:
 		case 0:
 			e = &bx.Quant{All: all, Sel: bx.Sel{Parts: []string{"m"}}, Mode: bx.BindBoth, Index: "k", Value: "v", Body: body}
 		case 1:
